@@ -202,6 +202,8 @@ def r_transl(ctx):
     want = {
         ("mirrored", "ge"): ("c1", "c2", "(w+ws)/2"),
         ("mirrored", "lt"): None,
+        ("mirrored-zero", "ge"): ("c1", "c2", "w/2"),
+        ("mirrored-zero", "lt"): None,
         ("single", "ge"): ("max", "min", "w/2"),
         ("single", "lt"): ("max", "min", "w/2"),
     }
@@ -245,15 +247,19 @@ def _sparse_paths(body, p1, p2, cs, gi, gj, gv):
     """Abstract execution of the pair branch over (mirrored key present?, c1 >= c2?)."""
     owner = cs.owner
     res = {}
-    for mirrored in (True, False):
+    for mirrored in (True, "zero", False):
         for ge in (True, False):
             env = {cs.weight: Rat.sym("w")}
+            ws_val = Rat(0) if mirrored == "zero" else Rat.sym("ws")
             out = {"i": [], "j": [], "v": []}
 
             def test_val(t):
                 txt = src(t).replace(" ", "")
                 if txt in ("(%s,%s)in%s.decomposition_dict" % (p2, p1, owner), "(%s,%s)in%s.decomposition_dict.keys()" % (p2, p1, owner)):
-                    return mirrored
+                    return bool(mirrored)
+                if txt in ("%s.decomposition_dict.get((%s,%s),0)!=0" % (owner, p2, p1), "%s.decomposition_dict.get((%s,%s))" % (owner, p2, p1),
+                           "%s.decomposition_dict.get((%s,%s),0)" % (owner, p2, p1)):
+                    return mirrored is True       # present with a non-zero weight only
                 if txt == "%s.counter>=%s.counter" % (p1, p2):
                     return ge
                 if txt == "%s.counter<=%s.counter" % (p2, p1):
@@ -276,7 +282,9 @@ def _sparse_paths(body, p1, p2, cs, gi, gj, gv):
                         if isinstance(val, ast.Subscript) and dotted(val.value) == owner + ".decomposition_dict":
                             k = src(val.slice).replace(" ", "")
                             if k in ("(%s,%s)" % (p2, p1), "%s,%s" % (p2, p1)):
-                                env[s.targets[0].id] = Rat.sym("ws")
+                                if not mirrored:
+                                    raise AnalysisError("sparse translator: lookup of an absent mirrored key (KeyError)")
+                                env[s.targets[0].id] = ws_val
                             elif k in ("(%s,%s)" % (p1, p2), "%s,%s" % (p1, p2)):
                                 env[s.targets[0].id] = Rat.sym("w")
                             else:
@@ -302,7 +310,7 @@ def _sparse_paths(body, p1, p2, cs, gi, gj, gv):
                         raise AnalysisError("sparse translator: statement `%s` outside the analysed fragment" % norm_stmt(s)[:60])
 
             run(body)
-            state = ("mirrored" if mirrored else "single", "ge" if ge else "lt")
+            state = ({True: "mirrored", "zero": "mirrored-zero", False: "single"}[mirrored], "ge" if ge else "lt")
             n = {len(out["i"]), len(out["j"]), len(out["v"])}
             if n == {0}:
                 res[state] = None
@@ -333,6 +341,8 @@ def _same_sparse(got, exp, state):
     ei, ej, ev = exp
     w, ws = Rat.sym("w"), Rat.sym("ws")
     want_v = (w + ws) / Rat(2) if ev == "(w+ws)/2" else w / Rat(2)
+    if state[0] == "mirrored-zero":
+        want_v = w / Rat(2)
     if not (isinstance(gv, Rat) and gv.equals(want_v)):
         return False
     ge = state[1] == "ge"
